@@ -319,7 +319,9 @@ def _composite(ctx, lib, trait, sty, imp, bodies):
     tj = imp["self_tyj"]
     adt = tj.get("path")
     if tj["k"] != "adt" or adt not in lib.adts:
-        ctx.bad("SER-SYM", bodies[W], "unknown-impl:" + sty, bodies[W].span, "Serializable impl for a type the rules do not model: " + sty)
+        # an impl for a shape the tables do not model (e.g. an array) cannot be judged either way: it is listed in the
+        # evidence, not reported (a correct new impl must not raise an alarm)
+        ctx.info.setdefault("unmodelled_serializable_impls", []).append(sty)
         return
     label = adt.split("::")[-1] if "::" in adt else adt
     label = adt
